@@ -108,4 +108,13 @@ CHECKS['C11'] = dict(
          'exactly the cwd, environment and timeout the reference machine has after the events before them and none after.',
     note='Probes are virtual children recording cwd / env / timeout at the subprocess.call seam; dedupe is sound because every transition re-validates the full '
          'history from a fresh world; a child that chdirs is only in the real-process slices.')
+CHECKS['C19'] = dict(
+    level='model_checking',
+    technique='exhaustive exploration of place x child-duration class x timeout history under a virtual clock at the process seam (call/Popen/run surface), plus a real-process slice with a compiled sleeper (incl. SIGTERM-ignoring)',
+    text='19 places where a process can be started x durations {T-1, T, T+1, never ends, never ends ignoring SIGTERM} x 9 timeout histories: the timeout each process '
+         'runs under must be the one in force (reference machine), d > t must give HARD_ERROR in that phase with no later forward process, [cleanup] processes started, '
+         'sandbox removed and virtual time bounded by the sum of timeouts; a never-ending child under `timeout = none` must be waited for. Real slice: 8 places x {sleeper, '
+         'SIGTERM-ignoring sleeper} with timeout = 1: exactly returns < 10 s, HARD_ERROR, child pid gone, sandbox removed.',
+    note='Scheduling is reduced to the one schedule-dependent quantity: whether the child outlives the timeout (virtual clock). Kernel-level facts are sampled by the real '
+         'slice only. Shell places use `exec` so that the sleeper is the process exactly starts.')
 NOT_APPLICABLE = {}
